@@ -32,6 +32,15 @@ theorem rinv_step (s : RState) (ev : REv) (h : RInv s) : RInv (s.step ev) := by
     simp only [RState.step]
     cases hpc : s.pcs t with
     | idle =>
+      by_cases hr : r.pos + r.n > s.file.length
+      · simp only [hr, if_true]
+        refine ⟨hh, hp, hf, ?_⟩
+        intro e he
+        simp only [List.mem_cons] at he
+        rcases he with rfl | he
+        · simp [readExact]; omega
+        · exact hl e he
+      simp only [hr, if_false]
       cases hlk : s.lock with
       | none =>
         constructor
@@ -217,6 +226,7 @@ theorem run_file (evs : List REv) : ∀ s : RState, (s.run evs).file = s.file :=
     cases e with
     | start t r =>
       simp only [RState.step]
+      split <;> try rfl
       split <;> try rfl
       split <;> rfl
     | step t =>
